@@ -1,6 +1,8 @@
 package sx
 
 import (
+	"unicode"
+
 	"golang.org/x/tools/go/ssa"
 )
 
@@ -110,4 +112,135 @@ func inRUnlock2(ex *Exec, fr *frame, fn *ssa.Function, a []value) value {
 		*c = ex.tt.Const(t.W, t.C-1)
 	}
 	return nil
+}
+
+// (*strings.byteStringReplacer).Replace — the library code indexes the
+// 256-entry table r.replacements with a uint8; the engine's bounds check
+// builds the constant 256 at the index's width (8 bits -> 0) and reports a
+// spurious "index out of range [symbolic] with length 256" (see
+// intrinsics_ignore.go for the same issue in unicode/utf8).  Same semantics:
+// every byte that has a replacement is replaced by it, all others are copied;
+// a symbolic byte forks on equality with each byte that has a replacement.
+func init() {
+	intrinsics["(*strings.byteStringReplacer).Replace"] = inByteStringReplace
+}
+
+func inByteStringReplace(ex *Exec, fr *frame, fn *ssa.Function, a []value) value {
+	p := a[0].(*value)
+	if p == nil {
+		ex.nilDeref()
+	}
+	st, ok := (*p).(structure)
+	if !ok || len(st) < 1 {
+		panic(engineError{"byteStringReplacer: unexpected receiver layout"})
+	}
+	table, ok := st[0].(array)
+	if !ok || len(table) != 256 {
+		panic(engineError{"byteStringReplacer: unexpected replacements table"})
+	}
+	repl := func(x int) (str, bool) {
+		sl, _ := table[x].([]value)
+		if sl == nil {
+			return nil, false
+		}
+		out := make(str, len(sl))
+		for i := range sl {
+			out[i] = sl[i].(*Term)
+		}
+		return out, true
+	}
+	var keys []int
+	for x := 0; x < 256; x++ {
+		if _, has := repl(x); has {
+			keys = append(keys, x)
+		}
+	}
+	s := asStr(a[1])
+	out := make(str, 0, len(s))
+	for _, b := range s {
+		if b.IsConst() {
+			if r, has := repl(int(b.C & 0xff)); has {
+				out = append(out, r...)
+			} else {
+				out = append(out, b)
+			}
+			continue
+		}
+		replaced := false
+		for _, x := range keys {
+			if ex.decideBool(ex.tt.Eq(b, ex.tt.Byte(byte(x))), "replacer byte") {
+				r, _ := repl(x)
+				out = append(out, r...)
+				replaced = true
+				break
+			}
+		}
+		if !replaced {
+			out = append(out, b)
+		}
+	}
+	return out
+}
+
+// unicode.IsLetter / IsNumber / IsDigit on a symbolic rune.  The library code
+// indexes the 256-entry Latin-1 property table with a uint8 (spurious
+// "index out of range [symbolic] with length 256", see above) and otherwise
+// binary-searches range tables.  Here: a constant rune is classified by the
+// host library; a symbolic rune within Latin-1 gets ONE boolean term (the
+// disjunction of the Latin-1 code points having the property, computed with
+// the host library); a symbolic rune that can exceed Latin-1 is concretised.
+func init() {
+	intrinsics["unicode.IsLetter"] = runeClassIntrinsic(unicode.IsLetter, "unicode.IsLetter")
+	intrinsics["unicode.IsNumber"] = runeClassIntrinsic(unicode.IsNumber, "unicode.IsNumber")
+	intrinsics["unicode.IsDigit"] = runeClassIntrinsic(unicode.IsDigit, "unicode.IsDigit")
+}
+
+func runeClassIntrinsic(class func(rune) bool, what string) intrinsic {
+	return func(ex *Exec, fr *frame, fn *ssa.Function, a []value) value {
+		tt := ex.tt
+		r := a[0].(*Term)
+		if r.IsConst() {
+			return tt.Bool(class(rune(int32(uint32(r.C)))))
+		}
+		if !ex.decideBool(tt.Ule(r, tt.Const(r.W, 0xff)), what+": rune within Latin-1") {
+			v := ex.concretize(r, what+": rune beyond Latin-1")
+			return tt.Bool(class(rune(int32(uint32(v)))))
+		}
+		// disjunction of maximal ranges
+		res := tt.False
+		for lo := 0; lo <= 0xff; lo++ {
+			if !class(rune(lo)) {
+				continue
+			}
+			hi := lo
+			for hi+1 <= 0xff && class(rune(hi+1)) {
+				hi++
+			}
+			in := tt.BAnd(tt.Ule(tt.Const(r.W, uint64(lo)), r), tt.Ule(r, tt.Const(r.W, uint64(hi))))
+			res = tt.BOr(res, in)
+			lo = hi
+		}
+		return res
+	}
+}
+
+// github.com/google/uuid.xtob(x1, x2 byte) (byte, bool): two lookups in the
+// 256-entry table xvalues indexed by a byte (same spurious bounds failure).
+// Same function as a term: hex value of each digit, 255 for a non-digit.
+func init() {
+	intrinsics["github.com/google/uuid.xtob"] = inUUIDxtob
+}
+
+func inUUIDxtob(ex *Exec, fr *frame, fn *ssa.Function, a []value) value {
+	tt := ex.tt
+	hex := func(x *Term) *Term {
+		rng := func(lo, hi byte) *Term { return tt.BAnd(tt.Ule(tt.Byte(lo), x), tt.Ule(x, tt.Byte(hi))) }
+		return tt.Ite(rng('0', '9'), tt.Sub(x, tt.Byte('0')),
+			tt.Ite(rng('a', 'f'), tt.Add(tt.Sub(x, tt.Byte('a')), tt.Byte(10)),
+				tt.Ite(rng('A', 'F'), tt.Add(tt.Sub(x, tt.Byte('A')), tt.Byte(10)), tt.Byte(255))))
+	}
+	b1, b2 := hex(a[0].(*Term)), hex(a[1].(*Term))
+	val := tt.Or(tt.Shl(b1, tt.Byte(4)), b2)
+	ok := tt.BAnd(tt.BNot(tt.Eq(b1, tt.Byte(255))), tt.BNot(tt.Eq(b2, tt.Byte(255))))
+	return tuple{val, ok}
 }
